@@ -419,6 +419,7 @@ package keyvalue
 //@   ensures "bytes" implies(old(readOK(f, f.offset)) && old(f.offset) < blob.blobLen(old(hData(f))), forall(i, 0, n, p[i] == old(blob.blobAt(hData(f), f.offset + i))))
 //@   ensures "offset" f.offset == old(f.offset) + n && n >= 0
 //@   ensures "eof-only-at-end" implies(err == io.EOF && old(readOK(f, f.offset)), f.offset >= blob.blobLen(old(hData(f))))
+//@   ensures "no-spurious-error" [C02] implies(old(readOK(f, f.offset)) && old(f.offset) < blob.blobLen(old(hData(f))), err == nil || err == io.EOF)
 //@   ensures "inv" fileInv(f) && hDataOK(f)
 //@   ensures "data-ok" hDataOK(f)
 //@   nopanic
@@ -540,6 +541,7 @@ package keyvalue
 //@   ensures "neg" implies(!old(fIsDir(f)) && off < 0, n == 0 && isPathError(err) && pathOf(err) == f.path)
 //@   ensures "data-error" implies(!old(fIsDir(f)) && off >= 0 && old(blob.blobLen(p)) > 0 && old(hDataErr(f)) != nil, n == 0 && isPathError(err) && innerErr(err) == old(hDataErr(f)))
 //@   ensures "empty-write" [C02] implies(!old(fIsDir(f)) && off >= 0 && old(blob.blobLen(p)) == 0, n == 0 && err == nil && sameContent(old(hData(f))) && world() == old(world()))
+//@   ensures "mem-succeeds" [C02 C01] implies(isMem(f.fileData.fs) && !old(fIsDir(f)) && off >= 0 && old(hDataErr(f)) == nil, err == nil && n == old(blob.blobLen(p)))   // as os.File: a write to an open regular file at a non-negative offset is complete
 //@   ensures "count" implies(err == nil && old(canGrowSet(hData(f))), n == old(blob.blobLen(p)))
 //@   ensures "size" implies(err == nil && old(canGrowSet(hData(f))), blob.blobLen(old(hData(f))) == ite(n == 0, old(blob.blobLen(hData(f))), max(old(blob.blobLen(hData(f))), off + n)))
 //@   ensures "written" implies(err == nil && old(canGrowSet(hData(f))), forall(i, 0, n, blob.blobAt(old(hData(f)), off + i) == old(blob.blobAt(p, i))))
@@ -634,6 +636,7 @@ package keyvalue
 //@   ensures "closed" implies(f.closed, closedError(err, f) && implies(old(hDataErr(f)) == nil, sameContent(old(hData(f)))))
 //@   ensures "dir" implies(!f.closed && old(fIsDir(f)), isPathError(err) && errIs(err, hackpadfs.ErrIsDir) && pathOf(err) == f.path && implies(old(hDataErr(f)) == nil, sameContent(old(hData(f)))))
 //@   ensures "neg" implies(!f.closed && !old(fIsDir(f)) && size < 0, isPathError(err) && errIs(err, hackpadfs.ErrInvalid) && implies(old(hDataErr(f)) == nil, sameContent(old(hData(f)))))
+//@   ensures "mem-succeeds" [C02 C01] implies(isMem(f.fileData.fs) && !f.closed && !old(fIsDir(f)) && size >= 0 && old(hDataErr(f)) == nil, err == nil)   // as os.File: an open regular file can be cut or extended to any non-negative size
 //@   ensures "content" implies(err == nil && old(hDataErr(f)) == nil, blob.blobLen(old(hData(f))) == size &&
 //@                     forall(i, 0, min(size, old(blob.blobLen(hData(f)))), blob.blobAt(old(hData(f)), i) == old(blob.blobAt(hData(f), i))) &&
 //@                     forall(i, old(blob.blobLen(hData(f))), size, blob.blobAt(old(hData(f)), i) == 0))
@@ -1128,6 +1131,9 @@ package keyvalue
 //@                     errIs(retErr, hackpadfs.ErrNotDir) && memSame(fs))
 //@   ensures "created" [C01 C03] implies(isMem(fs) && VP(name) && !old(kvHas(fs, name)) && isCreate(flag) && old(kvHas(fs, pdir(name))) && old(memIsDir(fs, pdir(name))) && retErr == nil,
 //@                     kvHas(fs, name) && isType(kvRec(fs, name), mem.fileRecord) && memRec(fs, name).mode == perm & hackpadfs.ModePerm)
+//@   ensures "opens-existing" [C01] implies(isMem(fs) && VP(name) && old(kvHas(fs, name)) && !(isCreate(flag) && flag & hackpadfs.FlagExclusive != 0) && !(old(memIsDir(fs, name)) && wantsWrite(flag)),
+//@                     retErr == nil)   // succeeds exactly when os does: the only refusals of an existing name are O_CREATE|O_EXCL and write flags on a directory
+//@   ensures "creates" [C01] implies(isMem(fs) && VP(name) && !old(kvHas(fs, name)) && isCreate(flag) && old(kvHas(fs, pdir(name))) && old(memIsDir(fs, pdir(name))), retErr == nil)
 //@   ensures "created-frame" [C01 C03] implies(isMem(fs) && VP(name) && !old(kvHas(fs, name)), memSameExcept(fs, name))
 //@   ensures "truncated" [C01 C02] implies(isMem(fs) && retErr == nil && flag & hackpadfs.FlagTruncate != 0 && old(kvHas(fs, name)),
 //@                     blob.blobLen(old(rawData(kvRec(fs, name)))) == 0 && isType(kvRec(fs, name), mem.fileRecord) && memRec(fs, name).data == old(rawData(kvRec(fs, name))))
